@@ -201,6 +201,17 @@ Definition enc_ck (bs : str) (m : message) (sess : session) (seq time : str) : N
   checksum (concat (map (fun f => f ++ SOHs)
     (field T8 bs :: field T9 (n_to_dec (enc_blen m sess seq time)) :: enc_fields m sess seq time))).
 
+(* all fields of the frame, in order; the frame is their concatenation, each followed by SOH *)
+Definition frame_fields (bs : str) (m : message) (sess : session) (seq time : str) : list str :=
+  field T8 bs :: field T9 (n_to_dec (enc_blen m sess seq time)) :: enc_fields m sess seq time
+  ++ [field T10 (fmt03 (enc_ck bs m sess seq time))].
+
+(* D5 as a predicate on the rendered fields: no field after the first contains "8=FIX.", and the
+   first field ("8=<BeginString>") does not contain it from offset 5 on *)
+Definition no_marker_fields_b (bs : str) (m : message) (sess : session) (seq time : str) : bool :=
+  negb (contains_sub MARK (skipn 5 (field T8 bs)))
+  && no_marker_in_fields (tl (frame_fields bs m sess seq time)).
+
 (* what the decoder returns for the frame of m: header, then the body of m unchanged
    (order, values, group nesting, item count and order), then CheckSum *)
 Definition decoded_of (bs : str) (m : message) (sess : session) (seq time : str) : message :=
@@ -240,3 +251,15 @@ Fixpoint cut_positions (acc : nat) (chunks : list str) : list nat :=
 (* negation of the D6 class "a read ends 1-5 bytes into a frame" *)
 Definition no_cut_inside_marker (frames chunks : list str) : bool :=
   forallb (cut_ok frames) (cut_positions 0 chunks).
+
+(* a frame produced by the encoder under the hypotheses of the round-trip theorem, paired with the
+   message the decoder returns for it *)
+Definition encoder_frame (G : group_table) (bs : str) (fm : str * message) : Prop :=
+  exists m sess time raw sess' seq,
+    wf_bs bs = true /\ wf_session sess = true /\ soh_free time = true /\ wf_msg G m = true
+    /\ no_marker (fst fm) = true /\ small_frame (fst fm)
+    /\ encode bs m sess time raw = Ok (fst fm, sess') /\ select_seq m sess raw = Ok (seq, sess')
+    /\ snd fm = decoded_of bs m sess seq time.
+
+(* (frame, message) as the reader hands it over: (message, raw frame) *)
+Definition delivered (fm : str * message) : message * str := (snd fm, fst fm).
